@@ -6,6 +6,7 @@ import MotoModel.Proofs.DiskSector
 import MotoModel.Props.C07
 import MotoModel.Proofs.DiskPreserve
 import MotoModel.Proofs.DiskRuns
+import MotoModel.Proofs.DiskUntouched
 namespace Moto.C06
 open Moto Moto.Disk
 
@@ -131,5 +132,23 @@ theorem add_keeps_every_file (fl : Flavour) (w : Tape.World) (verbose : Bool) (a
 theorem keeps_means (a b : Image) (h : Keeps a b) (k j : Nat) (hk : k < 4) (hj : j < 112) (rec16 content : Bytes)
     (hf : fileAt (a.getD k []) j = some (rec16, content)) : fileAt (b.getD k []) j = some (rec16, content) :=
   h k j _ hk hj hf
+
+/-- **C06 (no sector of a block that was in use or reserved is modified — the whole invocation)**:
+    `--add` on the archive of any consistent image, with any batch of sources (stored, refused for
+    lack of blocks or of a catalog entry, retried on the following sides, dropped): on every side, each
+    of the eight sectors of every block that the side's table marked as not free before (in use or
+    reserved; the two blocks of track 20 apart, which hold the table and the catalog) holds the same
+    bytes in the written image, and the block is still not free. -/
+theorem used_blocks_never_modified (fl : Flavour) (w : Tape.World) (verbose : Bool) (archive : Str) (img : Image) (srcs : List Str)
+    (himg : ImgOk img) (hs : ∀ src ∈ srcs, CleanSrc src) :
+    ∃ img', ImgOk img'
+      ∧ (add fl w verbose archive (save fl img) srcs).writes = [(archive, save fl img')]
+      ∧ ∀ k, k < 4 → ∀ bat, getBat (img.getD k []) = .ok bat → ∀ b, b ≠ 40 → b ≠ 41 → isFree (bat.getD b 0) = false →
+          ∀ s, s < 8 → (img'.getD k []).getD (8 * b + s) [] = (img.getD k []).getD (8 * b + s) []
+            ∧ ∃ bat', getBat (img'.getD k []) = .ok bat' ∧ isFree (bat'.getD b 0) = false := by
+  obtain ⟨st, hst, hok, hkeep⟩ := batch_keeps_used_blocks w verbose img srcs himg hs
+  rw [add_on_saved fl w verbose archive img srcs himg]
+  refine ⟨st.img, hok, ?_, hkeep⟩
+  unfold performOn; rw [if_neg (by rw [himg.1]; omega), hst]
 
 end Moto.C06
